@@ -262,8 +262,8 @@ func Simulate(sc *Scenario) *Sim {
 			if b == nil || !b.added {
 				continue
 			}
-			if !b.inHeap {
-				continue // parked or gone: ignored by the heap manager
+			if !b.inHeap || b.popped {
+				continue // parked, gone, or popped to the top (its place is final): ignored by the heap manager
 			}
 			b.prio = int(st.N)
 			if st.Op == "uprio" && st.Flag {
